@@ -256,6 +256,32 @@ func c10Exercise(db *database.Database, q string, o database.SearchOptions) (per
 	m.SearchWithMonitoring(q, o.Limit)
 	m.ProfileSearchMemory(q)
 	db.GetSuggestions(q, o.Limit)
+	// long-lived engines that are given other content between searches: held a longer list (this one
+	// plus entries that spell the query) and are given this one, or held half of it and are given all
+	fz := o
+	fz.UseFuzzy = true
+	longer := append(cloneCmds(db.Commands), database.Command{Command: q + " extra"}, database.Command{Command: "x", Description: q}, database.Command{Command: strings.ToUpper(q)})
+	for _, pair := range [][2][]database.Command{{longer, cloneCmds(db.Commands)}, {cloneCmds(db.Commands[:len(db.Commands)/2]), cloneCmds(db.Commands)}} {
+		ask := func(d *database.Database) {
+			d.SearchUniversal(q, fz)
+			d.SearchWithFuzzy(q, fz)
+			d.SearchWithNLP(q, fz)
+			d.SearchWithPipelineOptions(q, fz)
+			d.GetSuggestions(q, 3)
+		}
+		c2 := database.NewCachedDatabase(&database.Database{Commands: pair[0]})
+		ask(c2.Database)
+		c2.SearchWithOptionsAndCache(q, fz)
+		c2.UpdateDatabase(pair[1])
+		ask(c2.Database)
+		c2.SearchWithOptionsAndCache(q, fz)
+		m2 := database.NewMonitoredDatabase(&database.Database{Commands: cloneCmds(pair[0])})
+		ask(m2.Database)
+		m2.SearchWithOptionsAndMonitoring(q, fz)
+		m2.LoadDatabaseWithMonitoring(cloneCmds(pair[1]))
+		ask(m2.Database)
+		m2.SearchWithOptionsAndMonitoring(q, fz)
+	}
 	saved := os.Stdout
 	os.Stdout = devNull
 	recovery.NewSearchRecovery().RecoverFromSearchFailure(q, nil, db)
@@ -337,7 +363,7 @@ func c10Case(data []byte, q string, o database.SearchOptions) (msg string, loade
 
 func TestC10_Totality(t *testing.T) {
 	rec := stat.For("C10")
-	rec.Rule("file content: YAML entry lists with hostile scalars (NUL/ESC via escapes, !!binary, 5-16 KiB strings, numbers/bools/null/maps/sequences where strings are expected, anchors and aliases, duplicate keys, tabs, BOM, multi-document), harness-emitted well-formed lists with NUL / invalid UTF-8 fields, damaged YAML (truncation, byte flips, junk insertion), binary, odd shapes; queries incl. NUL, invalid UTF-8, 1000-byte strings; options incl. MaxInt/MinInt limits and caps, NaN/Inf boosts. Each case: write file, LoadDatabase, and on success every search entry point, suggestions and the recovery search, under a 60 s watchdog. Oracle: no panic, no hang; missing => not-found; undecodable (independent yaml decode fails) => parse error (wording-independent error signature calibrated at run time); decodable => loads with equal entries. Non-trivial = the file loaded and searches ran, or it was rejected as a parse error.")
+	rec.Rule("file content: YAML entry lists with hostile scalars (NUL/ESC via escapes, !!binary, 5-16 KiB strings, numbers/bools/null/maps/sequences where strings are expected, anchors and aliases, duplicate keys, tabs, BOM, multi-document), harness-emitted well-formed lists with NUL / invalid UTF-8 fields, damaged YAML (truncation, byte flips, junk insertion), binary, odd shapes; queries incl. NUL, invalid UTF-8, 1000-byte strings; options incl. MaxInt/MinInt limits and caps, NaN/Inf boosts. Each case: write file, LoadDatabase, and on success every search entry point, suggestions, the recovery search, and the same searches on cached and monitored engines before and after they are given this content in place of a longer or a shorter list, under a 60 s watchdog. Oracle: no panic, no hang; missing => not-found; undecodable (independent yaml decode fails) => parse error (wording-independent error signature calibrated at run time); decodable => loads with equal entries. Non-trivial = the file loaded and searches ran, or it was rejected as a parse error.")
 	rec.RequireShare("loaded", 0.35)
 	rec.RequireShare("rejected", 0.15)
 	rapid.Check(t, func(t *rapid.T) {
